@@ -172,6 +172,7 @@ theorem dictFind_eq (v : Val) (t : List String) :
       | none => simp
       | some v' => simpa using ih v'
     | int n => simp [dictFind, memberDot]
+    | null => simp [dictFind, memberDot]
     | list xs => simp [dictFind, memberDot]
     | ncobj => simp [dictFind, memberDot]
     | annobj a => simp [dictFind, memberDot]
@@ -211,6 +212,7 @@ theorem findName_eq_walk (p : List String) : ∀ (nc : NC), p ≠ [] →
             cases v with
             | map kvs => exact dictFind_eq (.map kvs) (f :: t')
             | int n => simp [memberDot]
+            | null => simp [memberDot]
             | list xs => simp [memberDot]
             | ncobj => simp [memberDot]
             | annobj a => simp [memberDot]
@@ -484,6 +486,7 @@ theorem foldlM_val (t : List String) : ∀ v : Val,
       | none => simp
       | some v' => simpa using ih v'
     | int n => simp [memberDot, selectFields]
+    | null => simp [memberDot, selectFields]
     | list xs => simp [memberDot, selectFields]
     | ncobj => simp [memberDot, selectFields]
     | annobj a => simp [memberDot, selectFields]
